@@ -39,8 +39,10 @@ ASSUMPTIONS = [
     "relative perturbation 1e-9 injected at every gradient and position update) is amplified by less than 1e3; "
     "cases beyond that (unstable step size for the target's curvature) are counted but nothing is asserted, "
     "because the property holds there only 'up to round-off' that is amplified without bound",
-    "guard (targets): positions of gamma blocks stay within |x| <= 500 and phylogenetic positions within 50 "
-    "(exp(x) representable), and HKY trajectories stay 1e-2 away from kappa = 1 / pi_A+pi_G = 1/2 where the rate "
+    "guard (targets): positions of gamma blocks stay within |x| <= 500 (exp(x) representable); phylogenetic "
+    "trajectories keep log branch lengths in [-12,3] and log kappa / stick-breaking coordinates within 4 (beyond, "
+    "the density's own gradient loses digits), and HKY trajectories stay away from kappa = 1 (5e-2 on log kappa) / "
+    "pi_A+pi_G = 1/2 (1e-2) where the rate "
     "matrix has a repeated eigenvalue and the eigendecomposition-based gradient is 0/0 (DESIGN 8 #21, a finding of "
     "C12/C19, not of the integrator)",
     "tolerances are relative to the trajectory scale S = max(1, |q|, |p|, eps*|grad|) along the reference: "
@@ -366,7 +368,13 @@ class Oracle:
         of the specification (not the integrator) stops being the smooth function the property is about"""
         c = self.c
         if c["target"] == "phylo":
-            return all(float(np.max(np.abs(q))) <= 50.0 for q, _ in traj)
+            # log branch lengths in [-12, 3] (4e-6 .. 20 substitutions per site), log kappa / stick-breaking
+            # coordinates within 4: beyond, exp(lambda t) of the rate matrix mixes magnitudes and the density's
+            # own gradient loses digits (two evaluations at inputs 1 ulp apart differ by 1e-10 relative)
+            for q, _ in traj:
+                if float(np.min(q[:5])) < -12.0 or float(np.max(q[:5])) > 3.0 or (len(q) > 5 and float(np.max(np.abs(q[5:]))) > 4.0):
+                    return False
+            return True
         s = 0
         for b, n in zip(c["blocks"], [b["n"] for b in c["blocks"]]):
             if b["kind"] == "gamma":
@@ -386,7 +394,7 @@ class Oracle:
         m = float("inf")
         for q, _ in traj:
             if c["model"] == "HKY_kappa":
-                m = min(m, abs(float(q[5])))
+                m = min(m, abs(float(q[5])) / 5.0)  # |pi_R - pi_Y| is small for the fixed frequencies: 5e-2 on log kappa
             else:
                 x = np.asarray(q[5:8], dtype=float)
                 z = 1.0 / (1.0 + np.exp(-(x - np.log(np.array([3.0, 2.0, 1.0])))))
